@@ -28,10 +28,11 @@ type VerifC11 struct {
 }
 
 // VerifC11New builds the controller through NewLoadBalancerController, watching the given
-// namespaces (one group of informers each; every one of them watches Secrets).  allNamespaces are
+// namespaces (one group of informers each; every one of them watches Secrets), with the given
+// keys as -wildcard-tls-secret / -default-server-tls-secret ("" = none).  allNamespaces are
 // the namespaces that exist in the cluster (Active), so that a namespace that stops being
 // watched is recognised as one that lost its label, not as a deleted one.
-func VerifC11New(ctx context.Context, cnf *configs.Configurator, watched, allNamespaces []string) *VerifC11 {
+func VerifC11New(ctx context.Context, cnf *configs.Configurator, watched, allNamespaces []string, wildcardSecret, defaultSecret string) *VerifC11 {
 	var nsObjs []runtime.Object
 	for _, n := range allNamespaces {
 		nsObjs = append(nsObjs, &api_v1.Namespace{ObjectMeta: meta_v1.ObjectMeta{Name: n}, Status: api_v1.NamespaceStatus{Phase: api_v1.NamespaceActive}})
@@ -39,6 +40,8 @@ func VerifC11New(ctx context.Context, cnf *configs.Configurator, watched, allNam
 	lbc := NewLoadBalancerController(NewLoadBalancerControllerInput{
 		KubeClient:                   fake.NewSimpleClientset(nsObjs...),
 		WatchNamespaceLabel:          "verif/watch=yes",
+		WildcardTLSSecret:            wildcardSecret,
+		DefaultServerSecret:          defaultSecret,
 		ConfClient:                   fake_v1.NewSimpleClientset(),
 		Recorder:                     record.NewFakeRecorder(1 << 12),
 		LoggerContext:                ctx,
@@ -48,6 +51,7 @@ func VerifC11New(ctx context.Context, cnf *configs.Configurator, watched, allNam
 		Namespace:                    watched,
 		SecretNamespace:              []string{""},
 		ControllerNamespace:          "nginx-ingress",
+		Pod:                          &api_v1.Pod{ObjectMeta: meta_v1.ObjectMeta{Namespace: "nginx-ingress", Name: "nginx-ingress-0"}},
 		AreCustomResourcesEnabled:    true,
 		MetricsCollector:             collectors.NewControllerFakeCollector(),
 		GlobalConfigurationValidator: validation.NewGlobalConfigurationValidator(map[int]bool{}),
